@@ -324,6 +324,27 @@ fn transcript_one<B: FA, H: ElementHasher<BaseField = B> + Send + Sync>(c: &TCas
         },
         _ => unreachable!(),
     }
+    // the nonce is part of the transcript too: another nonce (in particular one that differs by the
+    // field modulus, or only in its top bit) must lead to other query positions
+    if let Some(Event::DrawIntegers(n, d, nonce, Some(pos))) = expected.last() {
+        if (*d as f64).log2() * (*n as f64) >= 40.0 {
+            let p64 = (B::FP.p & (u64::MAX as u128)) as u64;
+            for (what, n2) in [("nonce+1", nonce.wrapping_add(1)), ("nonce+p", nonce.wrapping_add(p64)), ("nonce^2^63", nonce ^ (1u64 << 63)), ("nonce+2p", nonce.wrapping_add(p64.wrapping_mul(2)))] {
+                if n2 == *nonce {
+                    continue;
+                }
+                let mut spec3 = spec.clone();
+                let l = spec3.len();
+                spec3[l - 2] = SpecOp::Pow(n2);
+                spec3[l - 1] = SpecOp::Ints(*n, *d, n2);
+                let r3 = replay::<B, H>(&spec3);
+                if let Some(Event::DrawIntegers(_, _, _, Some(pos3))) = r3.last() {
+                    obs.comparisons += 1;
+                    ensure!(pos3 != pos, format!("metamorphic/positions-ignore-{what}"), "the query positions are the same for nonce {nonce} and {n2} ({what}): the nonce is not fully absorbed");
+                }
+            }
+        }
+    }
     let disturbed = replay::<B, H>(&spec2);
     for i in at + 1..expected.len() {
         match (&expected[i], &disturbed[i]) {
